@@ -61,7 +61,8 @@ def run(res, tier, seed, replay):
             lts.append(ops)
         hb.append((f"fb{i} b0,b1,fk0,fk1,fk2,fk3 " + "|".join(",".join(o) for o in lts), lts))
     import arenalib
-    hb += [arenalib.gen(rb, f"pk{i}", mode="packedbool") for i in range(6 if tier == "quick" else 60)]       # bool functions packed 8 bytes apart, several forced through one injector
+    hb += [arenalib.gen(rb, f"pk{i}", mode="packedbool") for i in range(6 if tier == "quick" else 60)]
+    hb += [arenalib.gen(rb, f"tb{i}", mode="tightbool") for i in range(6 if tier == "quick" else 60)]       # 6-byte bool functions with no padding between them: forcing one leaves its neighbours alone       # bool functions packed 8 bytes apart, several forced through one injector
     histlib.check_histories(res, "c02", 0, seed + 100, "full", extra_lines=hb)
     # the stub on the real CPU
     exe = reallib.build(res)
